@@ -355,6 +355,10 @@ func (r *Run) maybeWitness() {
 
 // Explore runs all paths of the harness with the given number of workers.
 func (h *HarnessRun) Explore(workers int, stats *SolverStats, logf *os.File) {
+	h.ExploreWith(workers, stats, logf, nil)
+}
+
+func (h *HarnessRun) ExploreWith(workers int, stats *SolverStats, logf *os.File, cross *crossSampler) {
 	h.cond = sync.NewCond(&h.mu)
 	h.queue = []work{{}}
 	var wg sync.WaitGroup
@@ -363,6 +367,7 @@ func (h *HarnessRun) Explore(workers int, stats *SolverStats, logf *os.File) {
 		go func() {
 			defer wg.Done()
 			s := NewSolver(stats)
+			s.Cross = cross
 			if logf != nil {
 				s.Log = logf
 			}
